@@ -44,6 +44,12 @@ func runC07(c *mon.Case) {
 		runC07Handshake(c)
 	case 2:
 		runC07Noise(c)
+	case 6:
+		if (c.Idx/8)%5 == 1 {
+			runC07Live(c)
+		} else {
+			runC07DataPhase(c)
+		}
 	case 7:
 		if (c.Idx/8)%5 == 0 {
 			runC07Websocket(c)
